@@ -61,22 +61,27 @@ Definition as_obs (s : sx) : option obs :=
 Record ucase := mkUc {
   uc_pre : list rcase; uc_req : rcase;
   uc_fsfault : Z;                 (* index of the failing file-store operation, -1 = none *)
+  uc_sqlfault : Z;                (* failing database step: 0 none, 1 NewUpload, 2 a flush at Commit,
+                                     3 the commit, 4 a flush forced while part [uc_sqlpart] is read *)
+  uc_sqlpart : Z;
   uc_before : obs; uc_after : obs }.
 
 Definition decode_u (l : list sx) : option ucase :=
   match l with
-  | [pre; rq; SZ ff; b; a] =>
+  | [pre; rq; SZ ff; SZ sq; SZ sp; b; a] =>
       do pre <- as_list as_rcase pre; do rq <- as_rcase rq; do b <- as_obs b; do a <- as_obs a;
-      Some (mkUc pre rq ff b a)
+      Some (mkUc pre rq ff sq sp b a)
   | _ => None
   end.
 
 (** ** the model run *)
 Definition st0 : ustate StoreFmt.rec := mkUs [] [] [].
 
-Definition no_fault : oracle := mkOracle false (fun _ => false) false false.
-Definition fs_fault (n : Z) : oracle :=
-  mkOracle false (fun k => if (n <? 0)%Z then false else Nat.eqb k (Z.to_nat n)) false false.
+Definition no_fault : oracle := mkOracle false (fun _ => false) (fun _ => false) false false.
+Definition fs_fault (n sq sp : Z) : oracle :=
+  mkOracle (sq =? 1)%Z (fun k => if (n <? 0)%Z then false else Nat.eqb k (Z.to_nat n))
+           (fun i => (sq =? 4)%Z && (i =? z2n sp)%N)
+           (sq =? 2)%Z (sq =? 3)%Z.
 
 Definition run_pre (pre : list rcase) : ustate StoreFmt.rec :=
   fold_left (fun st r => fst (run_upload_sf (rc_id r) no_fault st (rc_req r))) pre st0.
@@ -99,7 +104,7 @@ Definition state_matches (st : ustate StoreFmt.rec) (o : obs) : bool :=
 
 Definition corr_u (c : ucase) : bool :=
   let st := run_pre (uc_pre c) in
-  let '(st', out) := run_upload_sf (rc_id (uc_req c)) (fs_fault (uc_fsfault c)) st (rc_req (uc_req c)) in
+  let '(st', out) := run_upload_sf (rc_id (uc_req c)) (fs_fault (uc_fsfault c) (uc_sqlfault c) (uc_sqlpart c)) st (rc_req (uc_req c)) in
   state_matches st (uc_before c)
   && state_matches st' (uc_after c)
   && match out with
@@ -156,7 +161,8 @@ Definition prop_u (c : ucase) : bool :=
     || negb (has_file (rq_items rq))
     || items_faulty id (rq_user rq) (rq_time rq) 0 (rq_items rq)
     || rejects_sf (coalesce_sf (all_results id (rq_user rq) (rq_time rq) 0 (rq_items rq)))
-    || ((0 <=? uc_fsfault c)%Z && (Z.to_nat (uc_fsfault c) <? ops_total st (uc_req c))%nat) in
+    || ((0 <=? uc_fsfault c)%Z && (Z.to_nat (uc_fsfault c) <? ops_total st (uc_req c))%nat)
+    || negb (uc_sqlfault c =? 0)%Z in
   let b := uc_before c in let a := uc_after c in
   (* no partial file is ever left behind; files present before are untouched *)
   forallb (fun e => snd e) (ob_fs a)
@@ -204,13 +210,13 @@ Definition parse_id (s : bytes) : option uid :=
   | None => None
   end.
 
-Record icase := mkI { ic_day : N; ic_seq : list bytes; ic_conc : list (list bytes) }.
+Record icase := mkI { ic_day : N; ic_seq : list bytes; ic_conc : list (list bytes); ic_errs : N }.
 
 Definition decode_i (l : list sx) : option icase :=
   match l with
-  | [SZ day; sq; conc] =>
+  | [SZ day; sq; conc; SZ errs] =>
       do sq <- as_list as_b sq; do conc <- as_list (as_list as_b) conc;
-      Some (mkI (z2n day) sq conc)
+      Some (mkI (z2n day) sq conc (z2n errs))
   | _ => None
   end.
 
@@ -231,11 +237,12 @@ Definition corr_i (c : icase) : bool :=
       list_eqb uid_eqb (flat_map (fun o => match o with Some u => [u] | None => [] end) res) ids
   | None => false
   end
-  (* concurrent: the successful IDs are day.1 .. day.k *)
+  (* concurrent: the successful IDs are of that day and numbered within 1 .. successes + failed calls
+     (a call failing after its ID transaction committed uses a number up) *)
   && match omap (omap parse_id) (ic_conc c) with
      | Some per =>
          let all := concat per in
-         forallb (fun u => (fst u =? ic_day c)%N && (snd u <=? N.of_nat (length all))%N) all
+         forallb (fun u => (fst u =? ic_day c)%N && (snd u <=? N.of_nat (length all) + ic_errs c)%N) all
      | None => false
      end.
 
